@@ -1,0 +1,230 @@
+//! Verification hooks (compiled only with `--cfg googlefonts_fontations_verif`).
+//!
+//! Add-only read/drive access to the packing graph for an external
+//! differential harness: build a [`Graph`] from abstract node specs (mirroring
+//! the `#[cfg(test)]` mock helpers), run the individual sorting / overflow /
+//! isolation steps or the whole of `pack_objects`, and read back the final
+//! order, objects and serialized bytes. Nothing here is used by the crate.
+
+use std::collections::BTreeMap;
+
+use super::{Graph, ObjectId, OffsetLen, Space};
+use crate::{
+    table_type::TableType,
+    write::{OffsetRecord, TableData, TableWriter},
+    FontWrite,
+};
+
+/// One link of a mock object. `target` is an index into the spec slice.
+#[derive(Clone, Debug)]
+pub struct LinkSpec {
+    pub pos: u32,
+    /// 2, 3 or 4 (anything else is treated as 4, like `TableData::add_offset`)
+    pub width: u8,
+    pub target: usize,
+    pub adjustment: u32,
+}
+
+/// One mock object: its bytes and outgoing links.
+#[derive(Clone, Debug)]
+pub struct NodeSpec {
+    pub bytes: Vec<u8>,
+    pub links: Vec<LinkSpec>,
+    /// number of ids drawn from the global counter (and discarded) before
+    /// this node's id is allocated
+    pub burn_ids: u32,
+}
+
+/// A read-only copy of one object of the graph and its sort state.
+#[derive(Clone, Debug, PartialEq, Eq)]
+pub struct ObjView {
+    pub id: u64,
+    pub bytes: Vec<u8>,
+    /// (pos, width, target id, adjustment)
+    pub links: Vec<(u32, u8, u64, u32)>,
+    pub position: u32,
+    pub distance: u32,
+    pub space: u32,
+    /// (parent id, width) as currently cached on the node
+    pub parents: Vec<(u64, u8)>,
+    pub type_name: String,
+}
+
+/// (parent, child, distance, width)
+pub type OverflowView = (u64, u64, u32, u8);
+
+fn width_to_len(width: u8) -> OffsetLen {
+    match width {
+        2 => OffsetLen::Offset16,
+        3 => OffsetLen::Offset24,
+        _ => OffsetLen::Offset32,
+    }
+}
+
+/// Draw the next id from the process-wide counter.
+pub fn next_raw_id() -> u64 {
+    ObjectId::next().0
+}
+
+/// A graph under external control.
+pub struct VGraph {
+    graph: Graph,
+    ids: Vec<u64>,
+}
+
+impl VGraph {
+    /// Build a graph from specs; ids are drawn from the global counter in
+    /// spec order (so they are strictly increasing in the spec index).
+    pub fn new(specs: &[NodeSpec], root: usize) -> VGraph {
+        let mut ids = Vec::with_capacity(specs.len());
+        for spec in specs {
+            for _ in 0..spec.burn_ids {
+                ObjectId::next();
+            }
+            ids.push(ObjectId::next());
+        }
+        let objects = specs
+            .iter()
+            .zip(&ids)
+            .map(|(spec, id)| {
+                let data = TableData {
+                    type_: TableType::MockTable,
+                    bytes: spec.bytes.clone(),
+                    offsets: spec
+                        .links
+                        .iter()
+                        .map(|l| OffsetRecord {
+                            pos: l.pos,
+                            len: width_to_len(l.width),
+                            object: ids[l.target],
+                            adjustment: l.adjustment,
+                        })
+                        .collect(),
+                };
+                (*id, data)
+            })
+            .collect::<BTreeMap<_, _>>();
+        let graph = Graph::from_objects(objects, ids[root]);
+        VGraph {
+            graph,
+            ids: ids.into_iter().map(|id| id.0).collect(),
+        }
+    }
+
+    /// The graph `dump_table` would build for this table (before packing).
+    pub fn from_table(table: &impl FontWrite) -> VGraph {
+        let graph = TableWriter::make_graph(table);
+        let ids = graph.objects.keys().map(|id| id.0).collect();
+        VGraph { graph, ids }
+    }
+
+    /// ids of the initial objects (spec order for `new`, ascending for `from_table`)
+    pub fn ids(&self) -> &[u64] {
+        &self.ids
+    }
+
+    pub fn root(&self) -> u64 {
+        self.graph.root.0
+    }
+
+    pub fn sort_kahn(&mut self) {
+        self.graph.sort_kahn()
+    }
+
+    pub fn sort_shortest_distance(&mut self) {
+        self.graph.sort_shortest_distance()
+    }
+
+    pub fn basic_sort(&mut self) -> bool {
+        self.graph.basic_sort()
+    }
+
+    pub fn has_overflows(&self) -> bool {
+        self.graph.has_overflows()
+    }
+
+    pub fn find_overflows(&self) -> Vec<OverflowView> {
+        self.graph
+            .find_overflows()
+            .into_iter()
+            .map(|o| (o.parent.0, o.child.0, o.distance, o.offset_type as u8))
+            .collect()
+    }
+
+    pub fn assign_spaces_hb(&mut self) -> bool {
+        self.graph.assign_spaces_hb()
+    }
+
+    /// `find_overflows` followed by `try_isolating_subgraphs`
+    pub fn try_isolating_subgraphs(&mut self) -> bool {
+        let overflows = self.graph.find_overflows();
+        self.graph.try_isolating_subgraphs(&overflows)
+    }
+
+    pub fn pack_objects(&mut self) -> bool {
+        self.graph.pack_objects()
+    }
+
+    pub fn serialize(&self) -> Vec<u8> {
+        self.graph.serialize()
+    }
+
+    /// What `dump_table` does after building the graph: bytes only if packing succeeds.
+    pub fn dump(&mut self) -> Option<Vec<u8>> {
+        if !self.graph.pack_objects() {
+            return None;
+        }
+        Some(self.graph.serialize())
+    }
+
+    pub fn order(&self) -> Vec<u64> {
+        self.graph.order.iter().map(|id| id.0).collect()
+    }
+
+    pub fn next_space(&self) -> u32 {
+        self.graph.next_space.0
+    }
+
+    /// (space, number of roots), ascending by space
+    pub fn num_roots_per_space(&self) -> Vec<(u32, usize)> {
+        let mut v: Vec<_> = self
+            .graph
+            .num_roots_per_space
+            .iter()
+            .map(|(s, n): (&Space, &usize)| (s.0, *n))
+            .collect();
+        v.sort();
+        v
+    }
+
+    pub fn object_count(&self) -> usize {
+        self.graph.objects.len()
+    }
+
+    /// All objects, ascending by id.
+    pub fn objects(&self) -> Vec<ObjView> {
+        self.graph
+            .objects
+            .iter()
+            .map(|(id, data)| {
+                let node = self.graph.nodes.get(id);
+                ObjView {
+                    id: id.0,
+                    bytes: data.bytes.clone(),
+                    links: data
+                        .offsets
+                        .iter()
+                        .map(|l| (l.pos, l.len as u8, l.object.0, l.adjustment))
+                        .collect(),
+                    position: node.map(|n| n.position).unwrap_or(u32::MAX),
+                    distance: node.map(|n| n.distance).unwrap_or(u32::MAX),
+                    space: node.map(|n| n.space.0).unwrap_or(u32::MAX),
+                    parents: node
+                        .map(|n| n.parents.iter().map(|(p, l)| (p.0, *l as u8)).collect())
+                        .unwrap_or_default(),
+                    type_name: data.type_.to_string(),
+                }
+            })
+            .collect()
+    }
+}
